@@ -30,6 +30,7 @@
 #include <fstream>
 #include <iostream>
 #include <map>
+#include <set>
 #include <memory>
 #include <new>
 #include <sstream>
@@ -376,16 +377,28 @@ int main(int argc, char** argv)
     probe.create_sandbox(&libs[1]);
 #endif
     std::vector<OwnA> held;
+    std::set<unsigned long long> entries;
     int n = 0;
+    bool bogus = false;
     try {
       for (auto& kv : poolA) {
         held.push_back(probe.register_callback(kv.second));
+        // an accepted registration has an entry point of its own: not null, not one handed out before
+        unsigned long long entry = (unsigned long long)(uintptr_t)held.back().UNSAFE_sandboxed(probe);
+        if (held.back().is_unregistered() || entry == 0 || !entries.insert(entry).second) {
+          bogus = true;
+          break;
+        }
         n++;
       }
-      n = 0;
+      if (!bogus) {
+        n = 0;
+      }
     } catch (const std::runtime_error&) {
     }
-    std::printf("%d\n", n);
+    // "<n>" = n registrations were accepted, the next one refused; "0" = more than the pool;
+    // "<n> bogus" = registration n+1 was accepted without an entry point of its own
+    std::printf("%d%s\n", n, bogus ? " bogus" : "");
     held.clear();
     probe.destroy_sandbox();
     return 0;
